@@ -532,6 +532,9 @@ pub fn gen_case(rng: &mut Rng, opt: &str, thorough: bool) -> String {
             case.data = if rng.chance(1, 4) { mutate(rng, r.bytes) } else { r.bytes };
             case.ls = true;
             case.mode = "stream".into();
+            // one byte per read in a third of the cases: `@<delivered>` is then exactly how far
+            // the parser looked
+            if rng.chance(1, 3) { case.chunk = Some(1); }
         }
         f if f.starts_with("scale") => return gen_scale(rng, f, thorough),
         _ => panic!("unknown family {}", family),
